@@ -48,7 +48,7 @@ def plan(tier, seed):
 
 def mandatory(tier):
     out = [f"loss/{n}" for n in POINTWISE + ["ncc_loss", "lcc_loss", "wlcc_loss", "mi_loss", "nmi_loss", "dice", "tversky"]]
-    out += [f"mask_shape/{m}" for m in MASK_SHAPES] + ["modules", "D/2", "D/3", "dice/absent_label", "wlcc/source_target_masks"]
+    out += [f"mask_shape/{m}" for m in MASK_SHAPES] + ["modules", "D/2", "D/3", "dice/absent_label", "wlcc/source_target_masks", "modules/norm_spellings"]
     return out
 
 
@@ -326,3 +326,12 @@ def run_item(ctx, item):
 
         nm = LM.MSE(x, y)
         close("implicit_norm_is_squared_max_difference", nm(x, y), LF.mse_loss(x, y, norm=max_difference(x, y).square()), "modules/implicit_norm")
+        # every documented spelling of the norm option, for every module that takes it
+        md2 = max_difference(x, y).square()
+        for mname, cls, fn, ekw in (("MSE", LM.MSE, LF.mse_loss, {}), ("SSD", LM.SSD, LF.ssd_loss, {}), ("MAE", LM.MAE, LF.mae_loss, {}), ("HuberImageLoss", LM.HuberImageLoss, LF.huber_loss, {"delta": d}), ("SmoothL1ImageLoss", LM.SmoothL1ImageLoss, LF.smooth_l1_loss, {"beta": d})):
+            ctx.bucket("modules/norm_spellings")
+            close("norm_true_uses_the_images", cls(x, y, norm=True, **ekw)(x, y), fn(x, y, norm=md2, **ekw), f"modules/{mname}/norm", module=mname, norm="True")
+            close("norm_none_uses_the_images", cls(x, y, norm=None, **ekw)(x, y), fn(x, y, norm=md2, **ekw), f"modules/{mname}/norm", module=mname, norm="None")
+            close("norm_false_is_one", cls(x, y, norm=False, **ekw)(x, y), fn(x, y, **ekw), f"modules/{mname}/norm", module=mname, norm="False")
+            close("norm_true_without_images_is_one", cls(norm=True, **ekw)(x, y), fn(x, y, **ekw), f"modules/{mname}/norm", module=mname, norm="True, no images")
+            close("norm_from_target_only", cls(target=y, **ekw)(x, y), fn(x, y, norm=max_difference(y, y).square(), **ekw), f"modules/{mname}/norm", module=mname, norm="target only")
